@@ -1,6 +1,8 @@
 package generator
 
 import (
+	"strings"
+
 	"github.com/vkd/goag/specification"
 )
 
@@ -41,6 +43,8 @@ type ClientOperationTemplate struct {
 
 	IsRequestBody bool
 	IsBodyReader  bool
+	// RequestContentType is the media type of the request body, sent as the Content-Type header.
+	RequestContentType string
 
 	Responses       []ClientResponseTemplate
 	DefaultResponse *ClientResponseTemplate
@@ -63,8 +67,12 @@ func NewClientOperation(o *Operation) ClientOperationTemplate {
 	if requestBody, ok := o.Operation.RequestBody.Get(); ok {
 		if requestBody.Value().Content.Has("application/json") {
 			c.IsRequestBody = true
+			c.RequestContentType = "application/json"
 		} else if len(requestBody.Value().Content.List) > 0 {
 			c.IsBodyReader = true
+			if mediaType := requestBody.Value().Content.List[0].Name; !strings.Contains(mediaType, "*") {
+				c.RequestContentType = mediaType
+			}
 		}
 	}
 
